@@ -15,6 +15,7 @@ import (
 
 	"github.com/openebs/jiva/replica"
 	"github.com/openebs/jiva/rpc"
+	jsync "github.com/openebs/jiva/sync"
 	"github.com/openebs/jiva/types"
 	"verif/simrt"
 )
@@ -28,7 +29,7 @@ func (clustersim) Name() string { return "clustersim" }
 
 func init() {
 	register(clustersim{})
-	for _, p := range []string{"C02", "C03", "C04", "C05", "C18"} {
+	for _, p := range []string{"C02", "C03", "C04", "C05", "C18", "C07", "C13", "C16", "C10", "C11"} {
 		propEngines[p] = append(propEngines[p], "clustersim")
 	}
 }
@@ -161,6 +162,12 @@ type adminOp struct {
 	done bool
 	err  error
 	at   time.Duration
+	// sampled when the request's handler first took the controller write lock
+	acquired   bool
+	list       []types.Replica
+	checkpoint string
+	addsBefore int64
+	missed     map[string]bool
 }
 
 type clRun struct {
@@ -185,6 +192,14 @@ type clRun struct {
 	removedAt map[string]time.Duration // address -> time it was last seen leaving the list
 	woSince   map[string]int           // address -> index of first io op issued after it appeared as WO
 
+	everWild     []bool
+	reverted     bool
+	foldsAtWO    map[string]int64
+	lastMode     map[string]types.Mode
+	qpoints      int
+	pendingPromo string
+	curAdmin     *adminOp
+	snaps        []*snapRec
 	faultsActive bool
 	acqCounter   int
 	shape        []string
@@ -246,8 +261,16 @@ func (cr *clRun) run(dir string) {
 	nreps := rf + int(s.Cfg["spares"])
 	types.ShouldPunchHoles = false
 	types.MaxChainLength = 0
-	types.RPCReadTimeout = time.Duration(s.Cfg["rpcto"]) * time.Second
-	types.RPCWriteTimeout = time.Duration(s.Cfg["rpcto"]) * time.Second
+	jsync.SnapshotRetentionCount = 10
+	if v := s.Cfg["retention"]; v > 0 {
+		jsync.SnapshotRetentionCount = int(v)
+	}
+	// always explicit: SetRPCTimeout ignores zero, and a previous run's value would leak into this one
+	rpcto := time.Duration(s.Cfg["rpcto"]) * time.Second
+	if rpcto == 0 {
+		rpcto = 30 * time.Second
+	}
+	types.RPCReadTimeout, types.RPCWriteTimeout = rpcto, rpcto
 	rpc.SetRPCTimeout()
 	cr.m = newVolModel(size)
 	c := newCluster(w, cr.res, dir, rf, size, nreps)
@@ -274,12 +297,16 @@ func (cr *clRun) run(dir string) {
 	cr.res.Steps = w.Steps
 	cr.res.Shape = hashStrings(cr.shape)
 	cr.res.Nontrivial = cr.mutations > 0 && cr.compares > 0
-	cr.res.TraceHash = hashStrings(w.Trace)
+	cr.res.TraceHash = hashTrace(w.Trace)
 	cr.res.Trace = w.Trace
 	for _, p := range w.Panics {
-		if cr.res.V == nil && cr.res.Infra == "" {
+		// a panic on a node's goroutine is that process crashing (the node is
+		// killed and restarted like any other exit); only a panic outside any node
+		// is harness trouble
+		if strings.HasPrefix(p, "harness:") && cr.res.V == nil && cr.res.Infra == "" {
 			cr.res.Infra = "panic: " + p
 		}
+		cr.res.stat("process_panics", 1)
 	}
 }
 
@@ -387,6 +414,8 @@ func (cr *clRun) exec(i int, op Op) {
 		}
 	case "settle":
 		cr.settle()
+	case "snap", "resize", "delsnap", "revert", "rmrep", "seterr", "addrep", "verify":
+		cr.issueAdmin(i, op)
 	}
 }
 
@@ -492,6 +521,10 @@ func (cr *clRun) issueIO(i int, op Op) {
 	case "unmap":
 		for s := o.off / sect; s < (o.off+o.n)/sect && s < int64(len(cr.m.wild)); s++ {
 			cr.m.wild[s] = true
+			for int64(len(cr.everWild)) <= s {
+				cr.everWild = append(cr.everWild, false)
+			}
+			cr.everWild[s] = true
 		}
 	}
 	simrt.GoNamed(c.ctrlN, gname, func() {
@@ -522,6 +555,11 @@ func (cr *clRun) onAcquire(lock interface{}, g *simrt.G, write bool) {
 	o := cr.byG[g.Name]
 	cr.c.mu.Unlock()
 	if o == nil {
+		if a := cr.curAdmin; a != nil && !a.acquired && strings.HasPrefix(g.Name, "http:admin>") {
+			a.acquired = true
+			a.list = append([]types.Replica(nil), cr.c.ctrl.ListReplicas()...)
+			a.checkpoint = cr.c.ctrl.Checkpoint
+		}
 		return
 	}
 	if !o.acquired {
@@ -659,6 +697,12 @@ func (cr *clRun) onQuiescent() {
 			cr.epoch[r.Address]++
 			if r.Mode == types.WO {
 				cr.woSince[r.Address] = len(cr.ios)
+				if cr.foldsAtWO == nil {
+					cr.foldsAtWO = map[string]int64{}
+				}
+				statMu.Lock()
+				cr.foldsAtWO[r.Address] = cr.res.Stats["fold_files"]
+				statMu.Unlock()
 			}
 			cr.mutations++
 			cr.res.stat("membership_add", 1)
@@ -672,6 +716,18 @@ func (cr *clRun) onQuiescent() {
 		}
 	}
 	cr.present = now
+	// promotions (WO -> RW within one membership epoch)
+	promoted := ""
+	for _, r := range list {
+		if r.Mode == types.RW && cr.lastMode[r.Address] == types.WO {
+			promoted = r.Address
+			cr.res.stat("promotions", 1)
+		}
+	}
+	cr.lastMode = map[string]types.Mode{}
+	for _, r := range list {
+		cr.lastMode[r.Address] = r.Mode
+	}
 	// C18 invariants
 	seen := map[string]bool{}
 	wo := 0
@@ -708,6 +764,18 @@ func (cr *clRun) onQuiescent() {
 		return
 	}
 	cr.compares++
+	cr.qpoints++
+	if promoted != "" {
+		cr.pendingPromo = promoted
+	}
+	if cr.idleIO() {
+		if cr.pendingPromo != "" {
+			cr.deepChecks("at promotion of "+cr.pendingPromo, cr.pendingPromo)
+			cr.pendingPromo = ""
+		} else if cr.qpoints%40 == 0 {
+			cr.deepChecks("periodic", "")
+		}
+	}
 }
 
 // judgeIO applies the per-operation oracles once an initiator operation completed.
@@ -976,6 +1044,10 @@ func (cr *clRun) settle() {
 	if !cr.lockFree() {
 		return
 	}
+	cr.deepChecks("after settle", "")
+	if cr.stopped() {
+		return
+	}
 	list = c.ctrl.ListReplicas()
 	for _, r := range list {
 		if r.Mode != types.RW {
@@ -1119,12 +1191,100 @@ func (clustersim) Generate(rng *Rand, prop, tier string) *Script {
 			add(Op{K: "kill", A: int64(rng.Intn(nreps))})
 		}
 	}
+	if rng.Bool(40) || prop == "C11" {
+		s.Cfg["retention"] = int64(rng.Range(1, 3))
+	}
+	snapID := int64(0)
+	admin := func() {
+		r := int64(rng.Intn(nreps))
+		x := rng.Intn(100)
+		switch prop {
+		case "C13":
+			if x < 70 {
+				x = 0
+			}
+		case "C16":
+			if x < 60 {
+				x = 45
+			}
+		case "C11":
+			if x < 40 {
+				x = 0
+			} else if x < 75 {
+				x = 60
+			}
+		}
+		switch {
+		case x < 40:
+			snapID++
+			add(Op{K: "snap", A: snapID})
+		case x < 55:
+			d := int64(rng.Range(1, 4))
+			if rng.Bool(25) {
+				d = -int64(rng.Intn(3))
+			}
+			add(Op{K: "resize", A: d})
+			if d > 0 {
+				nb += d
+				secs = nb * 8
+			}
+		case x < 70:
+			add(Op{K: "delsnap", A: int64(rng.Intn(8))})
+		case x < 78:
+			add(Op{K: "revert", A: int64(rng.Intn(8))})
+		case x < 86:
+			add(Op{K: "rmrep", A: r})
+		case x < 92:
+			add(Op{K: "seterr", A: r})
+		case x < 96:
+			add(Op{K: "addrep", A: r})
+		default:
+			add(Op{K: "verify", A: r})
+		}
+	}
 	nph := rng.Range(2, 7)
 	if tier == "thorough" && rng.Bool(30) {
 		nph = rng.Range(6, 14)
 	}
 	for p := 0; p < nph; p++ {
-		switch x := rng.Intn(100); {
+		x := rng.Intn(100)
+		if (prop == "C13" || prop == "C16" || prop == "C11") && rng.Bool(50) {
+			x = 95
+		}
+		if prop == "C07" && rng.Bool(40) {
+			x = 70
+		}
+		switch {
+		case x >= 90: // management operations racing with I/O
+			for i, k := 0, rng.Range(0, 3); i < k; i++ {
+				genIO()
+			}
+			admin()
+			if rng.Bool(30) {
+				fault()
+			}
+			for i, k := 0, rng.Range(0, 2); i < k; i++ {
+				genIO()
+			}
+			if rng.Bool(50) {
+				admin()
+			}
+			wait()
+			if s.Cfg["retention"] != 0 && rng.Bool(40) {
+				add(Op{K: "adv", A: int64(rng.Range(61000, 200000))}) // let the snapshot cleaner tick
+			}
+		case x >= 85: // everybody dies, comes back in some order (cold start)
+			for r := 0; r < nreps; r++ {
+				add(Op{K: "kill", A: int64(r)})
+			}
+			add(Op{K: "adv", A: int64(rng.Range(100, 5000))})
+			for _, r := range rng.Perm(nreps) {
+				add(Op{K: "restart", A: int64(r)})
+				add(Op{K: "adv", A: int64(rng.Range(1, 8000))})
+			}
+			add(Op{K: "boot", A: 240})
+			genIO()
+			wait()
 		case x < 30: // plain burst
 			for i, k := 0, rng.Range(1, 5); i < k; i++ {
 				genIO()
@@ -1142,7 +1302,7 @@ func (clustersim) Generate(rng *Rand, prop, tier string) *Script {
 				genIO()
 			}
 			wait()
-		case x < 85: // bring somebody back, keep writing while it rebuilds
+		case x < 84: // bring somebody back, keep writing while it rebuilds
 			r := int64(rng.Intn(nreps))
 			if rng.Bool(70) {
 				add(Op{K: "restart", A: r})
